@@ -36,7 +36,7 @@ class Reject(Exception):
   def __init__(self, pos, why):
     super().__init__('%s at %d' % (why, pos)); self.pos = pos; self.why = why
 
-def _read_text(s, i, stop):
+def _read_text(s, i, stop, allow=''):
   out = []
   n = len(s)
   while i < n:
@@ -50,7 +50,7 @@ def _read_text(s, i, stop):
       else:
         raise Reject(i, 'bare-ampersand')
       continue
-    if c in '<>"\'':
+    if c in '<>"\'' and c not in allow:
       raise Reject(i, 'raw-metacharacter-%s' % {'<': 'lt', '>': 'gt', '"': 'quot', "'": 'apos'}[c])
     out.append(c); i += 1
   return ''.join(out), i
@@ -63,7 +63,7 @@ def _read_name(s, i):
     j += 1
   return s[i:j], j
 
-def strict_parse(s):
+def strict_parse(s, apos_in_attr=False):
   """Returns the list of top-level nodes ([0, tag, opts, attrs, kids] | [1, text]); raises Reject."""
   i, n = 0, len(s)
   kids = []
@@ -103,7 +103,7 @@ def strict_parse(s):
       if i < n and s[i] == '=':
         if i + 1 >= n or s[i + 1] != '"':
           raise Reject(i, 'unquoted-attribute')
-        val, i = _read_text(s, i + 2, '"')
+        val, i = _read_text(s, i + 2, '"', "'" if apos_in_attr else '')
         if i >= n:
           raise Reject(i, 'unterminated-attribute')
         i += 1
@@ -453,7 +453,8 @@ def extra_options(extra, value, rng, data):
   if extra == 'uncollapse_fn': return dict(uncollapse=lambda k, v, p: len(k) % 2 == 0, collapse_level=0)
   if extra == 'hide_default': return dict(extra_flags=dict(hide_default_values=True, hide_frozen=False, use_inferred=True))
   if extra == 'child_config':
-    keys = [k for k, _ in (child_items(value) or [])]
+    # utils.merge (view_options) reads the keys of an option dict as key paths: only path-safe keys can be configured
+    keys = [k for k, _ in (child_items(value) or []) if not (isinstance(k, str) and any(c in k for c in '.[]'))]
     return dict(child_config={k: dict(collapse_level=None, enable_summary_tooltip=False) for k in keys[:1]} | {'__default__': dict(key_style='label')})
   raise ValueError(extra)
 EXTRAS = ['debug', 'css_classes', 'title', 'colors', 'color_fn', 'highlight', 'key_style_fn', 'include_fn', 'uncollapse_fn', 'hide_default', 'child_config']
@@ -515,7 +516,7 @@ def expected_visible(value, kw):
     keys = [k for k, _ in items]
     if depth == 0:
       inc, exc = kw.get('include_keys'), kw.get('exclude_keys')
-      if callable(inc) or callable(exc) or callable(kw.get('key_style')):
+      if callable(inc) or callable(exc) or callable(kw.get('key_style')) or kw.get('extra_flags') or kw.get('child_config'):
         return None
       if inc is not None: keys = [k for k in inc if k in dict(items)]
       if exc is not None: keys = [k for k in keys if k not in set(exc)]
@@ -605,6 +606,97 @@ def oracle(value, kw, data, twin=None):
       if not tm or tm.group(1) != head:
         hits.append(('C20/head-depends-on-data', 'the <style>/<script> blocks differ between two assignments of the data'))
   return hits
+
+# ------------------------------------------------------------------------------------------------
+# HTML controls (views/html/controls): oracle only.  Data: label text, tooltip text, sub-progress names, tab labels and the
+# values shown in tab contents.  Trusted (benign in the cases): id, css_classes, styles, link, target, for_element.
+CONTROL_KINDS = ['label', 'label+tooltip', 'badge', 'label-link', 'label-group', 'tooltip', 'tabs', 'progress']
+CTRL_TAGS = VOCAB_TAGS | {'a', 'button'}
+CTRL_ATTRS = VOCAB_ATTRS | {'id', 'href', 'target', 'onclick'}
+
+def build_control(spec):
+  from pyglove.core.views.html import controls as c
+  p = pg()
+  r = random.Random(spec['cseed'])
+  data = Data(random.Random(spec['dseed']), hostile=True, neutral=spec.get('neutral', False))
+  k = spec['which']
+  shown = []      # texts that must be present
+  def text(role):
+    t = data.s(role); shown.append(t); return t
+  if k == 'label': ctl = c.Label(text('label-text'))
+  elif k == 'label+tooltip': ctl = c.Label(text('label-text'), tooltip=c.Tooltip(text('tooltip-text')), css_classes=['my-label'], styles=dict(color='red'))
+  elif k == 'badge': ctl = c.Badge(text('label-text'), id='badge-1')
+  elif k == 'label-link': ctl = c.Label(text('label-text'), link='https://example.com/a?b=1', target='_blank')
+  elif k == 'label-group': ctl = c.LabelGroup([c.Label(text('label-text')), c.Badge(text('label-text'), tooltip=text('tooltip-text'))], name=c.Label(text('label-text')))
+  elif k == 'tooltip': ctl = c.Tooltip(text('tooltip-text'), for_element='.some-element')
+  elif k == 'tabs':
+    tabs = []
+    for i in range(r.randint(1, 3)):
+      content = r.choice(['dict', 'label', 'html'])
+      if content == 'dict': cont = p.Dict({data.s('dict-key', pathsafe=True): data.s('leaf-str')})
+      elif content == 'label': cont = c.Label(text('label-text'))
+      else: cont = p.Html('<span>constant</span>')
+      tabs.append(c.Tab(label=c.Label(text('label-text')), content=cont, name='tab%d' % i))
+    ctl = c.TabControl(tabs, selected=0, tab_position=r.choice(['top', 'left']))
+  elif k == 'progress':
+    ctl = c.ProgressBar([c.SubProgress(name=data.s('subprogress-name'), value=r.randint(0, 5)) for _ in range(r.randint(1, 3))], total=r.choice([None, 10]))
+  else:
+    raise ValueError(k)
+  return ctl, data, shown
+
+def oracle_control(spec):
+  ctl, data, shown = build_control(spec)
+  hits = []
+  csnap = lambda: pg().format(ctl, compact=True, verbose=True, hide_default_values=False)   # (to_json pickles pg.Html objects, whose lazily cached content makes the pickle differ)
+  jbefore = csnap()
+  try:
+    out = ctl.to_html_str(content_only=True)
+    full = ctl.to_html_str()
+  except Exception as e:
+    return [('C20/control-raises/%s/%s' % (spec['which'], type(e).__name__), 'rendering a %s control raises %s: %s' % (spec['which'], type(e).__name__, str(e)[:120]))], None
+  if csnap() != jbefore:
+    hits.append(('C20/control-value-modified/%s' % spec['which'], 'rendering changed the control'))
+  seen = set()
+  for sent, d in data.text.items():
+    esc = html_lib.escape(d)
+    if esc == d:
+      continue
+    i = out.find(d)
+    while i >= 0:
+      if out[i:i + len(esc)] != esc:
+        sig = 'C20/unescaped/%s/%s' % (data.roles[sent], context_of(out, i))
+        if sig not in seen:
+          seen.add(sig); hits.append((sig, '%s %r is written without escaping in a %s control: ...%s...' % (data.roles[sent], d, spec['which'], out[max(0, i - 40):i + len(d) + 20])))
+      i = out.find(d, i + 1)
+  tree = None
+  try:
+    tree = strict_parse(out, apos_in_attr=True)
+  except Reject as r:
+    if not seen:
+      hits.append(('C20/control-malformed/%s/%s/%s' % (spec['which'], r.why, context_of(out, r.pos)), 'control output is not well formed: %s; ...%s...' % (r, out[max(0, r.pos - 60):r.pos + 30])))
+  if tree is not None:
+    n = 0
+    for t in walk(tree):
+      if t[0] == 1:
+        n += len(SENT_RE.findall(t[1]))
+      else:
+        for what, nm in ([('element', t[1])] if t[1] not in CTRL_TAGS else []) + [('option', o) for o in t[2] if o not in VOCAB_OPTS] + [('attribute', a) for a, _ in t[3] if a not in CTRL_ATTRS]:
+          hits.append(('C20/control-vocabulary/%s/%s' % (what, nm if not SENT_RE.search(nm) else 'data'), 'the %s control output contains %s %r' % (spec['which'], what, nm)))
+        n += sum(len(SENT_RE.findall(v)) for _, v in t[3])
+    if n != len(SENT_RE.findall(out)):
+      hits.append(('C20/control-sentinel-outside-text/%s' % spec['which'], 'a datum occurs outside text / quoted attribute value position'))
+    texts = [t[1] for t in walk(tree) if t[0] == 1]
+    for d in shown:
+      if not any(d in x for x in texts):
+        hits.append(('C20/control-missing-text/%s' % spec['which'], 'text %r is not present in the %s control output' % (d, spec['which']))); break
+    if stdlib_events(out) != tree_events(tree):
+      hits.append(('C20/control-tokenizer-disagreement/%s' % spec['which'], 'html.parser and the strict tokenizer read different documents'))
+  m = re.fullmatch(r'<html>\n<head>\n(.*)\n</head>\n<body>\n(.*)\n</body>\n</html>', full, re.S)
+  if not m or m.group(2) != out:
+    hits.append(('C20/control-document-wrapper/%s' % spec['which'], 'full document is not head + body around the content'))
+  elif SENT_RE.search(m.group(1)):
+    hits.append(('C20/control-data-in-head/%s' % spec['which'], 'a datum occurs inside a <style>/<script> block'))
+  return hits, out
 
 # ------------------------------------------------------------------------------------------------
 LITERALS = [
@@ -708,6 +800,18 @@ def run(ctx):
       descr.append(dict(spec=spec, value=repr(value)[:300], options=repr(kw)[:300]))
   ctx.extra['sentinel_tagged_data'] = nsent
   n_tree = len(trs)
+  # ---- controls (oracle only)
+  nctl = 0
+  for which in CONTROL_KINDS:
+    for _ in range(ctx.scale(15, 200)):
+      spec = dict(kind='control', which=which, cseed=rng.getrandbits(32), dseed=rng.getrandbits(32))
+      hits, out = oracle_control(spec)
+      for sig, what in hits:
+        ctx.hit(sig, what, dict(spec=spec))
+      ctx.count(json.dumps(spec, sort_keys=True), nontrivial=True, kind='control-' + which); nctl += 1
+      if out is not None:
+        outputs.append(re.sub(r'control-\d+', 'control-1', out))
+  ctx.extra['control_cases'] = nctl
 
   # ---- the Python strict tokenizer against the proved Coq parser (real, mutated and hand-written documents)
   docs = ['', 'a', '<a></a>', '<a>', '</a>', '<a></b>', '<a b></a>', '<a b="c"></a>', '<a b="c" d></a>', '<a b=c></a>', '<a b="c"d></a>', '<a ></a>', '<a  b></a>',
@@ -757,8 +861,11 @@ def replay(ctx, rp):
   if spec.get('kind') == 'escape':
     s = spec['s']
     return html_lib.unescape(html_lib.escape(s)) == s
-  value, kw, data = build_case(spec)
-  hits = oracle(value, kw, data)
+  if spec.get('kind') == 'control':
+    hits, _ = oracle_control(spec)
+  else:
+    value, kw, data = build_case(spec)
+    hits = oracle(value, kw, data)
   for h in hits:
     print('  still fails:', h)
   return not hits
